@@ -107,6 +107,7 @@ def check(ctx):
     ctx.touch(outer)
     ctx.touch(inner)
     pa = PathAnalysis(db, ctx.cg)
+    check_validation_always_runs(ctx)
     check_input_effects(ctx, pa, outer, inner)
     check_mutators_on_scratch(ctx, pa, inner)
     check_output_written_last(ctx, pa, inner)
@@ -941,3 +942,53 @@ def _flat(parsed):
                 yield from _flat(list(av))
             except (TypeError, ValueError):
                 pass
+
+
+def check_validation_always_runs(ctx, rule='R-MUST/validation-runs'):
+    """whatever a file looks like, "no changes required" is a verdict of
+    the validation itself: every normal return of the public
+    `validate_h5ad` is reached through the call of `_validate_h5ad` (no
+    shortcut on a marker found in the file, a name, a cache), and what is
+    returned is what that call returned."""
+    db = ctx.db
+    fi = db.fn('validation.validate_h5ad:validate_h5ad')
+    ctx.touch(fi)
+    cfg = cfg_of(fi)
+    rd = rd_of(fi)
+    calls = set()
+    for node in cfg.nodes:
+        if node.id not in rd.live:
+            continue
+        for c in cfg.calls_in(node):
+            t = resolve_callee(db, fi, c)
+            if isinstance(t, FunctionInfo) and t.name == '_validate_h5ad':
+                calls.add(node.id)
+    if not calls:
+        raise AnalysisError('validate_h5ad does not call _validate_h5ad')
+    okp, wit = cfg.must_pass(cfg.entry, {cfg.exit},
+                             lambda x: x.id in calls,
+                             edge_ok=lambda a, b, lab: b != cfg.exc_exit)
+    ctx.ob(rule, 'validate_h5ad:every-return', fi.loc(), okp,
+           'every normal return of validate_h5ad follows the call of '
+           '_validate_h5ad' if okp else
+           'validate_h5ad can return without having run _validate_h5ad: '
+           'on that path identifiers are not mapped, X is not made '
+           'integer and malformed inputs are not rejected',
+           witness=cfg.fmt_path(wit) if wit else None)
+    ex = Expander(fi)
+    n = 0
+    for r in cfg.nodes:
+        if r.kind != 'return' or r.id not in rd.live \
+                or r.ast.value is None:
+            continue
+        n += 1
+        t = ex.expand(r.ast.value, r.id)
+        ok = any(T.call_name(x) == '_validate_h5ad'
+                 for x in T.subterms(t)) and not any(
+            isinstance(a, tuple) and a and a[0] == 'tuple'
+            for a in term_alts(t))
+        ctx.ob(rule, f'validate_h5ad:return#{n - 1}', fi.loc(r.ast), ok,
+               'the verdict returned is the one _validate_h5ad gave'
+               if ok else
+               f'`{unparse(r.ast)[:60]}` does not return the verdict of '
+               '_validate_h5ad')
